@@ -27,6 +27,20 @@ let hex_of_bytes (l : Model.byte list) : string =
   List.iter (fun x -> Buffer.add_string b (Printf.sprintf "%02x" (int_of_byte x))) l;
   Buffer.contents b
 
+let ser_tok (t : Model.tok) : string =
+  let h = hex_of_bytes in
+  match t with
+  | Model.TOpen (n, attrs, sc) ->
+      "O:" ^ h n ^ ":" ^ String.concat "," (List.map (fun (a, v) -> h a ^ "=" ^ h v) attrs) ^ ":" ^ (if sc then "1" else "0")
+  | Model.TClose n -> "C:" ^ h n
+  | Model.TText s -> "T:" ^ h s
+  | Model.TMsoOpen c -> "MO:" ^ h c
+  | Model.TMsoEnd -> "ME"
+  | Model.TNotMsoOpen c -> "NO:" ^ h c
+  | Model.TNotMsoEnd -> "NE"
+  | Model.TCmt s -> "CM:" ^ h s
+  | Model.TDoctype s -> "D:" ^ h s
+
 let () =
   self_test ();
   try
@@ -36,7 +50,18 @@ let () =
       | None -> print_endline "BAD"
       | Some i ->
         let fn = String.sub line 0 i in
-        let arg = bytes_of_hex (String.sub line (i + 1) (String.length line - i - 1)) in
+        let arg = if fn = "merge" then [] else bytes_of_hex (String.sub line (i + 1) (String.length line - i - 1)) in
+        if fn = "merge" then begin
+          let rest = String.sub line (i + 1) (String.length line - i - 1) in
+          let k = String.index rest ':' in
+          let a = bytes_of_hex (String.sub rest 0 k) and b = bytes_of_hex (String.sub rest (k + 1) (String.length rest - k - 1)) in
+          print_endline (if Model.m_merge_check a b then "1" else "0") end
+        else
+        if fn = "lex" then print_endline (String.concat ";" (List.map ser_tok (Model.m_lex arg)))
+        else if fn = "check" then
+          print_endline ((if Model.m_check_std arg then "1" else "0") ^ (if Model.m_check_mso arg then "1" else "0") ^
+                         (if Model.m_no_vml_outside arg then "1" else "0"))
+        else
         let out =
           match fn with
           | "strip" -> Some (Model.m_strip arg)
